@@ -249,3 +249,50 @@ func (w *World) finish(prop string, verifDir string, seed int, wall float64, ext
 	fmt.Printf("property=%s tier=%s obligations=%d holds=%d known=%d violations=%d wall=%.1fs\n", prop, w.Tier, len(obs), nh, nKnown, nViol, wall)
 	return exit
 }
+
+// include evaluates the rules of another property and adopts the obligations of the selected rules under
+// property P (same rule ids): rules that are necessary conditions of several properties are decided once
+// and reported under each.
+func (w *World) include(P, from string, rules ...string) {
+	sel := map[string]bool{}
+	for _, r := range rules {
+		sel[r] = true
+	}
+	before := len(w.Obs)
+	oldFloors := map[string]int{}
+	for k, v := range w.floors {
+		oldFloors[k] = v
+	}
+	registry[from](w)
+	var keep []*Obligation
+	for i, o := range w.Obs {
+		if i < before {
+			keep = append(keep, o)
+			continue
+		}
+		if o.Property == from && sel[o.Rule] {
+			c := *o
+			c.Property = P
+			keep = append(keep, &c)
+		}
+	}
+	w.Obs = keep
+	// floors of the adopted rules
+	for k, v := range w.floors {
+		if _, had := oldFloors[k]; had {
+			continue
+		}
+		if strings.HasPrefix(k, from+"|") {
+			r := strings.TrimPrefix(k, from+"|")
+			if sel[r] {
+				oldFloors[P+"|"+r] = v
+			}
+		}
+	}
+	w.floors = oldFloors
+	for _, d := range ruleDocs[from] {
+		if sel[d.Rule] {
+			docRule(P, d.Rule, d.Kind, d.Text+" (shared with "+from+")")
+		}
+	}
+}
